@@ -171,7 +171,7 @@ void h_persist_two_instances(void) { ND(U32, base); ND(U64, big); ND(U32, addr);
 
 def variant_jobs(ctx, tag, impmem, start, shared, opts=(), prefix="G", only=None):
     jobs = []
-    modname = "c06%s" % tag
+    modname = "c06%s%s" % (tag, "" if prefix == "G" else "".join(ch for ch in prefix.lower() if ch.isalnum()))
     m = build_module(impmem, start, shared)
     wasm_bytes = m.encode()
     d, r = ctx.translate(wasm_bytes, modname, opts)
@@ -213,8 +213,9 @@ def make_jobs(ctx):
     jobs = []
     for tag, impmem, start, shared in [("defmem", False, True, False), ("impmem", True, True, False), ("nostart", False, False, False), ("shared", False, True, True)]:
         jobs += variant_jobs(ctx, tag, impmem, start, shared)
+    # data segments kept outside the C file (-d gnu-ld): offsets into the blob must skip passive segments as well
+    jobs += variant_jobs(ctx, "defmem", False, True, False, opts=["-d", "gnu-ld"], prefix="Ggnuld", only=(None if ctx.tier == "thorough" else ["h_memory"]))
     if ctx.tier == "thorough":
-        jobs += variant_jobs(ctx, "defmem", False, True, False, opts=["-d", "gnu-ld"], prefix="Ggnuld")
         jobs += variant_jobs(ctx, "impmem", True, True, False, opts=["-p"], prefix="Gp")
     return jobs
 
